@@ -211,4 +211,101 @@ theorem finalGas_bounds (e : Env) (spec floorGas r7 : Nat) (res : Interp.ChildRe
   have hb3 := setFinalRefund_bounds g2 b
   rw [← spent_setFinalRefund g2 b] at hb3
   exact floor_step (setFinalRefund g2 b) g e.tx.gasLimit floorGas _ hw3 hi3 hl3 hb3.1 hb3.2 hfl hg
+/-! ## the result of a completed transaction -/
+
+theorem txResultOf_fields (cls : ResultClass) (res : Interp.ChildResult) (isCreate : Bool) (gas : Gas.Gas)
+    (logs : List LogRec) :
+    (txResultOf cls res isCreate gas logs).cls = cls ∧ (txResultOf cls res isCreate gas logs).reason = res.result ∧
+    (txResultOf cls res isCreate gas logs).gasUsed = U64ops.wsub (Gas.spent gas) (Gas.i64AsU64 gas.refunded) := by
+  cases cls <;> exact ⟨rfl, rfl, rfl⟩
+
+/-- the result handed out by `finish`: its class is the class of the first frame's `InstructionResult`
+(`SuccessOrHalt::from`), its gas is `spent - refunded` of the final meter -/
+theorem finish_result (e : Evm.Env) (spec floorGas r7 : Nat) (isCreate : Bool) (res : Interp.ChildResult)
+    (w w' : World) (r : TxResult) (h : finish e spec floorGas r7 isCreate res w = .ok (r, w')) :
+    classOf res.result = some r.cls ∧ r.reason = res.result ∧
+    r.gasUsed = U64ops.wsub (Gas.spent (finalGas e spec floorGas r7 res))
+                  (Gas.i64AsU64 (finalGas e spec floorGas r7 res).refunded) := by
+  unfold finish at h
+  simp only [bind, Except.bind] at h
+  cases h1 : w.loadAccount e.tx.caller with
+  | error err => rw [h1] at h; simp at h
+  | ok p1 =>
+    rw [h1] at h
+    simp only at h
+    cases h2 : p1.1.acct e.tx.caller with
+    | error err => rw [h2] at h; simp at h
+    | ok cacc =>
+      rw [h2] at h
+      simp only at h
+      generalize hw2 : ({ p1.1 with js := _ } : World) = w2 at h
+      cases h3 : w2.loadAccount e.block.coinbase with
+      | error err => rw [h3] at h; simp at h
+      | ok p3 =>
+        rw [h3] at h
+        simp only at h
+        cases h4 : p3.1.acct e.block.coinbase with
+        | error err => rw [h4] at h; simp at h
+        | ok bacc =>
+          rw [h4] at h
+          simp only at h
+          cases h5 : classOf res.result with
+          | none => rw [h5] at h; simp [ofOpt] at h
+          | some cls =>
+            rw [h5] at h
+            simp only [ofOpt, pure, Except.pure, Except.ok.injEq, Prod.mk.injEq] at h
+            obtain ⟨hr, _⟩ := h
+            rw [← hr]
+            obtain ⟨a, b, c⟩ := txResultOf_fields cls res isCreate (finalGas e spec floorGas r7 res) _
+            exact ⟨by rw [a], b, c⟩
+
+/-- a completed, executed transaction went through `prepare`, the loop on the first frame, and `finish` -/
+theorem transactWith_executed_inv {κ : Type} (C : CpOps κ) (fuel : Nat) (w w' : World) (e : Evm.Env) (spec : Nat)
+    (r : TxResult) (h : transactWith C fuel w e spec = .ok (.executed r, w')) :
+    ∃ (res : Interp.ChildResult) (floorGas refund : Nat) (isCreate : Bool) (w2 : World),
+      finish e (GasCalc.canon spec) floorGas refund isCreate res w2 = .ok (r, w') := by
+  unfold transactWith at h
+  simp only [bind, Except.bind] at h
+  cases hp : preverify w e (GasCalc.canon spec) with
+  | error err => rw [hp] at h; simp at h
+  | ok o =>
+    rw [hp] at h
+    cases o with
+    | none => simp [pure, Except.pure] at h
+    | some p =>
+      obtain ⟨w1, ig, fg⟩ := p
+      simp only at h
+      cases he : execute C fuel e (GasCalc.canon spec) ig fg w1 with
+      | error err => rw [he] at h; simp at h
+      | ok q =>
+        rw [he] at h
+        obtain ⟨r', w''⟩ := q
+        simp only [pure, Except.pure, Except.ok.injEq, Prod.mk.injEq, Outcome.executed.injEq] at h
+        obtain ⟨hr, hw⟩ := h
+        subst hr; subst hw
+        unfold execute at he
+        simp only [bind, Except.bind] at he
+        cases hpr : prepare C e (GasCalc.canon spec) ig w1 with
+        | error err => rw [hpr] at he; simp at he
+        | ok pp =>
+          obtain ⟨first, wa, isCreate, refund⟩ := pp
+          rw [hpr] at he
+          simp only at he
+          cases hrf : runFirst C (e.toCfg (GasCalc.canon spec)) fuel first wa with
+          | error err => rw [hrf] at he; simp at he
+          | ok rr =>
+            obtain ⟨res, w2⟩ := rr
+            rw [hrf] at he
+            exact ⟨res, fg, refund, isCreate, w2, he⟩
+
+/-- every completed executed transaction ends in exactly one outcome class, the class of its first frame's final
+`InstructionResult` (never an internal flag), with `gas_used = spent − refunded` of the handler's final meter -/
+theorem transact_class (fuel : Nat) (w w' : World) (e : Evm.Env) (spec : Nat) (r : TxResult)
+    (h : transact fuel w e spec = .ok (.executed r, w')) :
+    ∃ (res : Interp.ChildResult) (floorGas refund : Nat),
+      classOf res.result = some r.cls ∧ r.reason = res.result ∧
+      r.gasUsed = U64ops.wsub (Gas.spent (finalGas e (GasCalc.canon spec) floorGas refund res))
+                    (Gas.i64AsU64 (finalGas e (GasCalc.canon spec) floorGas refund res).refunded) := by
+  obtain ⟨res, fg, refund, isCreate, w2, hf⟩ := transactWith_executed_inv journalOps fuel w w' e spec r h
+  exact ⟨res, fg, refund, finish_result e _ fg refund isCreate res w2 w' r hf⟩
 end Revm.Proofs.Evm
